@@ -182,12 +182,17 @@ def run_property(prop, tier, seed, replay=None, write_evidence=True, verbose=Fal
         for c in ctl:
             if c["status"] == "missed":
                 print(f"SELFTEST-MISS property={prop} control={c['control']}: recorded breaking change is no longer detected (checker weakness, not a property violation)")
+        neg = controls.run_negative(prop, Ctx(prop, tier, seed).repo, set(known_keys))
+        for c in neg:
+            if c["status"] == "false-alarm":
+                print(f"SELFTEST-FALSE-ALARM property={prop} control={c['control']}: a behaviour-preserving variant raises {c['fired_keys'][:2]} (checker weakness, not a property violation)")
+        ctl = list(ctl) + [dict(c, kind="negative") for c in neg]
     wall = time.time() - t0
     if write_evidence:
         write_ev(prop, mod, tier, seed, reports, obs, listed, unlisted, infos, wall, ctl)
     n_ok = sum(1 for o in obs if o.ok)
     print(f"{prop} [{tier}] obligations={len(obs)} discharged={n_ok} known-findings={len(listed)} violations={len(unlisted)} "
-          f"configs={','.join(c for c, _ in reports)}" + (f" controls={sum(1 for c in ctl if c['status'].startswith('caught'))}/{len(ctl)}" if ctl else "") + f" wall={wall:.1f}s")
+          f"configs={','.join(c for c, _ in reports)}" + (f" controls={sum(1 for c in ctl if c['status'].startswith('caught'))}/{sum(1 for c in ctl if c.get('kind') != 'negative')} neutral-silent={sum(1 for c in ctl if c['status'] == 'silent')}/{sum(1 for c in ctl if c.get('kind') == 'negative')}" if ctl else "") + f" wall={wall:.1f}s")
     if verbose:
         for o in obs:
             print(("  ok   " if o.ok else "  FAIL ") + o.key + "  @" + o.where + "  " + o.what)
@@ -241,6 +246,8 @@ def write_ev(prop, mod, tier, seed, reports, obs, listed, unlisted, infos, wall,
     if ctl:
         cov["positive_controls"] = {
             "what": "recorded breaking changes (mutants/, seeded/) applied to a scratch copy of the analysed tree and re-analysed statically; 'caught' = the recorded rule key fired again",
+            "negative_controls": "behaviour-preserving patches (neutral/) touching the property's anchor files, applied the same way; the rules must stay silent",
+            "negative_silent": sum(1 for c in ctl if c["status"] == "silent"), "negative_false_alarms": sum(1 for c in ctl if c["status"] == "false-alarm"),
             "caught": sum(1 for c in ctl if c["status"] == "caught"), "caught_by_other_key": sum(1 for c in ctl if c["status"] == "caught-by-other-key"),
             "missed": sum(1 for c in ctl if c["status"] == "missed"), "skipped": sum(1 for c in ctl if c["status"] == "skipped"), "results": list(ctl)}
     ev = {
